@@ -3,9 +3,14 @@ package storage
 import (
 	"bytes"
 	"context"
+	"encoding/binary"
 	"errors"
+	"fmt"
 	"os"
 	"os/exec"
+	"runtime"
+	"strconv"
+	"syscall"
 	"time"
 
 	"github.com/dgraph-io/badger/v3"
@@ -54,6 +59,8 @@ var (
 	c15failing bool   // the next commit fails (disk full, ...)
 	c15opened  []badger.Options
 	c15updates int
+	c15writer  []func() // commits handed to badger's writer that have not reached the disk yet
+	c15batches map[*badger.WriteBatch]*c15txn
 )
 
 type c15iter struct {
@@ -71,6 +78,8 @@ func c15reset() {
 	c15opened = nil
 	c15updates = 0
 	c15values = nil
+	c15writer = nil
+	c15batches = map[*badger.WriteBatch]*c15txn{}
 }
 
 func c15Open(opts badger.Options) (*badger.DB, error) {
@@ -117,19 +126,88 @@ func c15Update(db *badger.DB, fn func(tx *badger.Txn) error) error {
 	if err := fn(tx); err != nil {
 		return err
 	}
+	return c15commit(t, true)
+}
+
+// commit applies a transaction's entries: always to what the open DB sees, and to the disk
+// image either now (synchronous commit) or when the writer gets to it (CommitWith).
+func c15commit(t *c15txn, sync bool) error {
+	st := c15dbs[t.db]
+	if st.closed {
+		return errors.New("db closed")
+	}
 	if c15failing {
 		c15failing = false
 		return errors.New("commit failed")
 	}
+	var kvs []c15kv
 	for _, e := range t.pending {
 		kv := c15kv{key: append([]byte(nil), e.Key...), val: append([]byte(nil), e.Value...), exp: e.ExpiresAt}
+		kvs = append(kvs, kv)
 		st.kvs = c15insert(st.kvs, kv)
+	}
+	t.pending = nil
+	toDisk := func() {
 		if !st.inMemory {
-			c15disk[st.dir] = c15insert(c15disk[st.dir], kv)
+			for _, kv := range kvs {
+				c15disk[st.dir] = c15insert(c15disk[st.dir], kv)
+			}
 		}
+	}
+	if sync {
+		toDisk()
+	} else {
+		c15writer = append(c15writer, toDisk)
 	}
 	return nil
 }
+
+// c15drain: badger's writer goroutine catches up (Close and Sync wait for it; a kill does not)
+func c15drain() {
+	for _, f := range c15writer {
+		f()
+	}
+	c15writer = nil
+}
+
+func c15NewTransaction(db *badger.DB, update bool) *badger.Txn {
+	tx := new(badger.Txn)
+	c15txns[tx] = &c15txn{db: db}
+	return tx
+}
+
+func c15Commit(tx *badger.Txn) error { c15updates++; return c15commit(c15txns[tx], true) }
+
+func c15CommitWith(tx *badger.Txn, cb func(error)) {
+	c15updates++
+	err := c15commit(c15txns[tx], false)
+	c15writer = append(c15writer, func() { cb(err) })
+}
+
+func c15Discard(tx *badger.Txn) { c15txns[tx].pending = nil }
+
+func c15Set(tx *badger.Txn, key, val []byte) error {
+	return c15SetEntry(tx, &badger.Entry{Key: key, Value: val})
+}
+
+func c15Sync(db *badger.DB) error { c15drain(); return nil }
+
+// write batches: entries are committed by Flush (synchronously), dropped by Cancel
+func c15NewWriteBatch(db *badger.DB) *badger.WriteBatch {
+	wb := new(badger.WriteBatch)
+	c15batches[wb] = &c15txn{db: db}
+	return wb
+}
+func c15BatchSetEntry(wb *badger.WriteBatch, e *badger.Entry) error {
+	t := c15batches[wb]
+	t.pending = append(t.pending, e)
+	return nil
+}
+func c15BatchSet(wb *badger.WriteBatch, k, val []byte) error {
+	return c15BatchSetEntry(wb, &badger.Entry{Key: k, Value: val})
+}
+func c15BatchFlush(wb *badger.WriteBatch) error { c15updates++; return c15commit(c15batches[wb], true) }
+func c15BatchCancel(wb *badger.WriteBatch)      { c15batches[wb].pending = nil }
 
 func c15SetEntry(tx *badger.Txn, e *badger.Entry) error {
 	t := c15txns[tx]
@@ -138,6 +216,7 @@ func c15SetEntry(tx *badger.Txn, e *badger.Entry) error {
 }
 
 func c15CloseDB(db *badger.DB) error {
+	c15drain()
 	c15dbs[db].closed = true
 	return nil
 }
@@ -229,19 +308,23 @@ func c15same(x, y []byte) bool {
 	return eq
 }
 
-// c15crashCopy (native replay only): what a killed process leaves behind is what the
-// directory's files hold at that instant (badger maps them, the kernel keeps the pages);
-// it is captured by copying the directory while the store is still open.
-func c15crashCopy(dir string) string {
-	d2, err := os.MkdirTemp("", "c15k")
-	if err != nil {
-		panic(err)
+// Native replay of a kill (no stand-ins there: real badger on a temporary directory). The
+// test binary re-executes itself as a child on the same draw file; the child configures the
+// store, performs the stores on one processor and sends itself SIGKILL the moment the last
+// Store has returned; the parent then reopens the directory the child left behind.
+const (
+	c15envDir  = "VERIF_C15_CHILD_DIR"
+	c15envBase = "VERIF_C15_BASE"
+)
+
+func c15runChild(v *verifrt.T, dir string, base int64) {
+	cmd := exec.Command(os.Args[0], os.Args[1:]...)
+	cmd.Env = append(os.Environ(), c15envDir+"="+dir, c15envBase+"="+strconv.FormatInt(base, 10),
+		"VERIF_DRAWS="+v.File, "VERIF_ATTEMPTS=1")
+	out, err := cmd.CombinedOutput()
+	if _, statErr := os.Stat(dir + "/killed"); statErr != nil {
+		panic("c15: the child did not reach its kill point: " + fmt.Sprint(err) + "\n" + string(out))
 	}
-	if out, err := exec.Command("cp", "-r", "--sparse=always", dir+"/.", d2).CombinedOutput(); err != nil {
-		panic(string(out))
-	}
-	os.Remove(d2 + "/LOCK")
-	return d2
 }
 
 // VerifC15Restart: a history of Store calls on the disk-backed provider, configured by the
@@ -254,37 +337,44 @@ func c15crashCopy(dir string) string {
 // a failed commit is reported; nothing is returned that was not handed to Store.
 func VerifC15Restart(v *verifrt.T) {
 	n := v.Bound("stores")
+	clean := v.Bool("clean-shutdown")
+	// who am I: the symbolic run, a native run doing everything itself (clean shutdown), the
+	// native parent of a kill (the stores happen in the child) or that child
+	child := !v.Symbolic() && os.Getenv(c15envDir) != ""
+	parent := !v.Symbolic() && !clean && !child
 	dir := "/data/c15"
-	var cleanup []string
+	// "now" at the start of the run; the executor uses a fixed instant (nothing below depends
+	// on its value, only on distances from it), badger's clock at the query is base + elapsed
+	base := int64(1790000000)
 	if v.Symbolic() {
 		c15reset()
+	} else if child {
+		dir = os.Getenv(c15envDir)
+		base, _ = strconv.ParseInt(os.Getenv(c15envBase), 10, 64)
+		runtime.GOMAXPROCS(1)
 	} else {
 		d, err := os.MkdirTemp("", "c15")
 		if err != nil {
 			panic(err)
 		}
-		dir = d
-		cleanup = append(cleanup, d)
-	}
-	defer func() {
-		for _, d := range cleanup {
-			os.RemoveAll(d)
-		}
-	}()
-	// "now" at the start of the run; the executor uses a fixed instant (nothing below depends
-	// on its value, only on distances from it), badger's clock at the query is base + elapsed
-	base := int64(1790000000)
-	if !v.Symbolic() {
+		defer os.RemoveAll(d)
+		dir = d + "/db"
 		base = time.Now().Unix()
 	}
 	retain := uint32(7200)
 	cfg := map[string]interface{}{"dir": dir, "retain": float64(retain)}
+	if parent {
+		c15runChild(v, dir, base)
+	}
 
-	s := NewSSD(nil)
-	v.Assert(s.Configure(cfg) == nil, "C15.store-opens")
-	if v.Symbolic() {
-		o := c15opened[len(c15opened)-1]
-		v.Assert(!o.InMemory && o.Dir == dir && o.ValueDir == dir && !o.ReadOnly, "C15.opened-on-the-configured-directory")
+	var s *SSD
+	if !parent {
+		s = NewSSD(nil)
+		v.Assert(s.Configure(cfg) == nil, "C15.store-opens")
+		if v.Symbolic() {
+			o := c15opened[len(c15opened)-1]
+			v.Assert(!o.InMemory && o.Dir == dir && o.ValueDir == dir && !o.ReadOnly, "C15.opened-on-the-configured-directory")
+		}
 	}
 
 	type sent struct {
@@ -309,6 +399,10 @@ func VerifC15Restart(v *verifrt.T) {
 		v.Assume(t >= security.MinTime && t < security.MaxTime)
 		id := message.NewID(ssid)
 		id.SetTime(t)
+		// the sequence and process words of the id are fixed so that parent and child of a
+		// native kill name the same messages
+		binary.BigEndian.PutUint32(id[8:12], ^uint32(i+1))
+		binary.BigEndian.PutUint32(id[12:16], 0x0c15c15c)
 		ttl := v.U32("ttl", i)
 		v.Assume(ttl > 0) // only messages with a ttl are handed to Store
 		eff := int64(ttl)
@@ -326,33 +420,43 @@ func VerifC15Restart(v *verifrt.T) {
 		m := message.Message{ID: id, Channel: []byte("a/b/"), Payload: pay, TTL: ttl}
 		msgs[i] = sent{expiry: expiry, orig: message.Message{
 			ID: append(message.ID(nil), id...), Channel: []byte("a/b/"), Payload: append([]byte(nil), pay...), TTL: uint32(eff)}}
+		if child && i == n-1 {
+			os.WriteFile(dir+"/killed", nil, 0o644) // written before the last store: nothing happens between its return and the kill
+		}
 		// the commit of this store may fail (natively the failing store is not attempted)
 		fail := v.Bool("commit-fails", i)
 		var err error
-		if v.Symbolic() {
+		switch {
+		case v.Symbolic():
 			c15failing = fail
 			err = s.Store(&m)
 			c15failing = false
-		} else if fail {
+		case fail:
 			err = errors.New("commit failed")
-		} else {
+		case parent:
+			// what the child's Store returned (the child records a failure before it dies)
+			if _, statErr := os.Stat(dir + "/store-failed-" + strconv.Itoa(i)); statErr == nil {
+				err = errors.New("store failed in the child")
+			}
+		default:
 			err = s.Store(&m)
+			if child && err != nil {
+				os.WriteFile(dir+"/store-failed-"+strconv.Itoa(i), nil, 0o644)
+			}
 		}
 		v.Assert(!fail || err != nil, "C15.failed-commit-is-reported")
 		v.Assert(fail || err == nil, "C15.store-succeeds")
 		msgs[i].ok = err == nil
 	}
+	if child {
+		syscall.Kill(os.Getpid(), syscall.SIGKILL)
+		select {}
+	}
 	v.Reach("stored")
 
 	// the broker stops
-	clean := v.Bool("clean-shutdown")
-	old := s
 	if clean {
-		v.Assert(old.Close() == nil, "C15.closes")
-	} else if !v.Symbolic() {
-		dir = c15crashCopy(dir)
-		cleanup = append(cleanup, dir)
-		cfg["dir"] = dir
+		v.Assert(s.Close() == nil, "C15.closes")
 	}
 	// ... and starts again on the same directory
 	s2 := NewSSD(nil)
@@ -393,8 +497,5 @@ func VerifC15Restart(v *verifrt.T) {
 	}
 	if !v.Symbolic() {
 		s2.Close()
-		if !clean {
-			old.Close()
-		}
 	}
 }
